@@ -39,7 +39,7 @@ class C15(BaseCheck):
   REQUIRED_ANCHORS = ANCHORS
   REQUIRED_CLASSES = ('payloads:none', 'payload:empty', 'payload:large', 'acks:-1', 'acks:0', 'acks:1',
                       'resp:produce', 'resp:metadata', 'routing', 'routing:timeouts', 'routing:timed-out-in-transit',
-                      'routing:while-opening', 'routing:short-sends', 'routing:bare-socket', 'full-client', 'full-client:unlisted-error-code', 'custom-client-id', 'reload', 'reload:retried-on-other-partition')
+                      'routing:while-opening', 'routing:short-sends', 'routing:bare-socket', 'routing:segmented-responses', 'full-client', 'full-client:unlisted-error-code', 'custom-client-id', 'reload', 'reload:retried-on-other-partition')
   ASSUMPTIONS = ('topics and payloads are bytes (the only form the Python-3 code path and the '
                  'repository\'s own test use)',)
   QUICK_CASES = 640
